@@ -97,6 +97,13 @@ package tcell
 //@ pred cbwf(cb *CellBuffer) = cb.w >= 0 && cb.h >= 0 && len(cb.cells) == cb.w*cb.h
 //@ pred inRange(cb *CellBuffer, x int, y int) = x >= 0 && y >= 0 && x < cb.w && y < cb.h
 //@ pred sameCurr(a cell, b cell) = a.currMain == b.currMain && a.currComb == b.currComb && a.currStyle == b.currStyle && a.width == b.width
+// representation invariant behind "the reported width is that of the rune": every cell's stored width is the width of
+// its stored rune (a never-written cell holds rune 0 - or, once marked clean, a space - with width 0 and is handed out as a blank).
+// SetDirty(x, y, false) turns a stored rune 0 into a space without touching the width: that keeps the invariant because
+// runeWidth(0) == 0, a fact about go-runewidth established by C09's evaluation of its source at code point 0 and
+// stated as an explicit hypothesis of the clause that needs it.
+//@ pred cellwidthok(c cell) = c.width == runeWidth(c.currMain) || (c.width == 0 && (c.currMain == 0 || c.currMain == ' '))
+//@ pred cbwidthinv(cb *CellBuffer) = forall k int :: 0 <= k && k < len(cb.cells) ==> cellwidthok(cb.cells[k])
 //@ pred cbwidths(cb *CellBuffer) = forall k int :: 0 <= k && k < len(cb.cells) ==> cb.cells[k].width >= 0
 //@ pred sameLastTail(a cell, b cell) = a.lastStyle == b.lastStyle && a.lastComb == b.lastComb
 //@ pred sameButLastMain(a cell, b cell) = sameCurr(a, b) && sameLastTail(a, b) && a.lock == b.lock
@@ -122,6 +129,7 @@ package tcell
 //@ func (*CellBuffer).SetDirty
 //@   arith math
 //@   requires cbwf(cb)
+//@   let wi0 = cbwidthinv(cb)
 //@   let wd0 = cbwidths(cb)
 //@   ensures [shape] shapeKept(cb, old(cb.w), old(cb.h), old(cb.cells))
 //@   ensures [outside] !inRange(cb, x, y) ==> forall k int :: 0 <= k && k < len(cb.cells) ==> cb.cells[k] == old(cb.cells[k])
@@ -134,12 +142,14 @@ package tcell
 //@              cb.cells[y*cb.w+x].currComb == old(cb.cells[y*cb.w+x].currComb) && cb.cells[y*cb.w+x].currStyle == old(cb.cells[y*cb.w+x].currStyle) &&
 //@              cb.cells[y*cb.w+x].width == old(cb.cells[y*cb.w+x].width) && cb.cells[y*cb.w+x].lock == old(cb.cells[y*cb.w+x].lock)
 //@   ensures [notdirty] inRange(cb, x, y) && !dirty ==> !isDirty(cb.cells[y*cb.w+x])
+//@   ensures [width-inv] wi0 && runeWidth(0) == 0 ==> cbwidthinv(cb)
 //@   ensures [widths] wd0 ==> cbwidths(cb)
 //@   modifies cb.cells[*]
 
 //@ func (*CellBuffer).Invalidate
 //@   arith math
 //@   requires cbwf(cb)
+//@   let wi0 = cbwidthinv(cb)
 //@   let wd0 = cbwidths(cb)
 //@   ensures [shape] shapeKept(cb, old(cb.w), old(cb.h), old(cb.cells))
 //@   ensures [all] forall k int :: 0 <= k && k < len(cb.cells) ==> cb.cells[k].lastMain == 0 && sameButLastMain(cb.cells[k], old(cb.cells[k]))
@@ -148,29 +158,34 @@ package tcell
 //@           invariant [done] forall k int :: 0 <= k && k <= rangeindex ==> cb.cells[k].lastMain == 0 && sameButLastMain(cb.cells[k], old(cb.cells[k]))
 //@           invariant [rest] forall k int :: rangeindex < k && k < len(cb.cells) ==> cb.cells[k] == old(cb.cells[k])
 //@           decreases len(cb.cells) - rangeindex
+//@   ensures [width-inv] wi0 ==> cbwidthinv(cb)
 //@   ensures [widths] wd0 ==> cbwidths(cb)
 //@   modifies cb.cells[*].lastMain
 
 //@ func (*CellBuffer).LockCell
 //@   arith math
 //@   requires cbwf(cb)
+//@   let wi0 = cbwidthinv(cb)
 //@   let wd0 = cbwidths(cb)
 //@   ensures [shape] shapeKept(cb, old(cb.w), old(cb.h), old(cb.cells))
 //@   ensures [others] forall k int :: 0 <= k && k < len(cb.cells) && (k != y*cb.w+x || !inRange(cb, x, y)) ==> cb.cells[k] == old(cb.cells[k])
 //@   ensures [locked] inRange(cb, x, y) ==> cb.cells[y*cb.w+x].lock && !isDirty(cb.cells[y*cb.w+x]) &&
 //@              sameCurr(cb.cells[y*cb.w+x], old(cb.cells[y*cb.w+x])) && sameLastTail(cb.cells[y*cb.w+x], old(cb.cells[y*cb.w+x])) &&
 //@              cb.cells[y*cb.w+x].lastMain == old(cb.cells[y*cb.w+x].lastMain)
+//@   ensures [width-inv] wi0 ==> cbwidthinv(cb)
 //@   ensures [widths] wd0 ==> cbwidths(cb)
 //@   modifies cb.cells[*].lock
 
 //@ func (*CellBuffer).UnlockCell
 //@   arith math
 //@   requires cbwf(cb)
+//@   let wi0 = cbwidthinv(cb)
 //@   let wd0 = cbwidths(cb)
 //@   ensures [shape] shapeKept(cb, old(cb.w), old(cb.h), old(cb.cells))
 //@   ensures [others] forall k int :: 0 <= k && k < len(cb.cells) && (k != y*cb.w+x || !inRange(cb, x, y)) ==> cb.cells[k] == old(cb.cells[k])
 //@   ensures [unlocked] inRange(cb, x, y) ==> !cb.cells[y*cb.w+x].lock && isDirty(cb.cells[y*cb.w+x]) &&
 //@              sameCurr(cb.cells[y*cb.w+x], old(cb.cells[y*cb.w+x])) && sameLastTail(cb.cells[y*cb.w+x], old(cb.cells[y*cb.w+x]))
+//@   ensures [width-inv] wi0 ==> cbwidthinv(cb)
 //@   ensures [widths] wd0 ==> cbwidths(cb)
 //@   modifies cb.cells[*]
 
@@ -182,6 +197,9 @@ package tcell
 //@              result0 == cb.cells[y*cb.w+x].currMain && result3 == cb.cells[y*cb.w+x].width
 //@   ensures [blank] inRange(cb, x, y) && (cb.cells[y*cb.w+x].width == 0 || cb.cells[y*cb.w+x].currMain < ' ') ==> result0 == ' ' && result3 == 1
 //@   ensures [rest] inRange(cb, x, y) ==> result1 == cb.cells[y*cb.w+x].currComb && result2 == cb.cells[y*cb.w+x].currStyle
+//@   ensures [width-of-rune] inRange(cb, x, y) && cellwidthok(cb.cells[y*cb.w+x]) ==>
+//@              (result0 == cb.cells[y*cb.w+x].currMain && result3 == runeWidth(result0) && result3 != 0) ||
+//@              (result0 == ' ' && result3 == 1 && (runeWidth(cb.cells[y*cb.w+x].currMain) == 0 || cb.cells[y*cb.w+x].currMain <= ' '))
 //@   modifies nothing
 
 //@ spec mergeColor(nw Color, old Color) Color = nw == ColorNone ? old : nw
@@ -189,10 +207,11 @@ package tcell
 //@ func (*CellBuffer).Fill
 //@   arith math
 //@   requires cbwf(cb)
+//@   let wi0 = cbwidthinv(cb)
 //@   let wd0 = cbwidths(cb)
 //@   ensures [shape] shapeKept(cb, old(cb.w), old(cb.h), old(cb.cells))
 //@   ensures [all] forall k int :: 0 <= k && k < len(cb.cells) ==>
-//@              cb.cells[k].currMain == r && isNil(cb.cells[k].currComb) && cb.cells[k].width == 1 &&
+//@              cb.cells[k].currMain == r && isNil(cb.cells[k].currComb) && cb.cells[k].width == runeWidth(r) &&
 //@              cb.cells[k].currStyle.fg == mergeColor(style.fg, old(cb.cells[k].currStyle.fg)) &&
 //@              cb.cells[k].currStyle.bg == mergeColor(style.bg, old(cb.cells[k].currStyle.bg)) &&
 //@              cb.cells[k].currStyle.attrs == style.attrs && cb.cells[k].currStyle.ulStyle == style.ulStyle &&
@@ -200,7 +219,7 @@ package tcell
 //@              cb.cells[k].lastMain == old(cb.cells[k].lastMain) && sameLastTail(cb.cells[k], old(cb.cells[k])) && cb.cells[k].lock == old(cb.cells[k].lock)
 //@   loop 1: invariant [idx] -1 <= rangeindex && rangeindex < len(cb.cells) && shapeKept(cb, old(cb.w), old(cb.h), old(cb.cells))
 //@           invariant [done] forall k int :: 0 <= k && k <= rangeindex ==>
-//@              cb.cells[k].currMain == r && isNil(cb.cells[k].currComb) && cb.cells[k].width == 1 &&
+//@              cb.cells[k].currMain == r && isNil(cb.cells[k].currComb) && cb.cells[k].width == runeWidth(r) &&
 //@              cb.cells[k].currStyle.fg == mergeColor(style.fg, old(cb.cells[k].currStyle.fg)) &&
 //@              cb.cells[k].currStyle.bg == mergeColor(style.bg, old(cb.cells[k].currStyle.bg)) &&
 //@              cb.cells[k].currStyle.attrs == style.attrs && cb.cells[k].currStyle.ulStyle == style.ulStyle &&
@@ -208,6 +227,7 @@ package tcell
 //@              cb.cells[k].lastMain == old(cb.cells[k].lastMain) && sameLastTail(cb.cells[k], old(cb.cells[k])) && cb.cells[k].lock == old(cb.cells[k].lock)
 //@           invariant [rest] forall k int :: rangeindex < k && k < len(cb.cells) ==> cb.cells[k] == old(cb.cells[k])
 //@           decreases len(cb.cells) - rangeindex
+//@   ensures [width-inv] wi0 ==> cbwidthinv(cb)
 //@   ensures [widths] wd0 ==> cbwidths(cb)
 //@   modifies cb.cells[*]
 
@@ -218,6 +238,7 @@ package tcell
 //@ func (*CellBuffer).SetContent
 //@   arith math
 //@   requires cbwf(cb)
+//@   let wi0 = cbwidthinv(cb)
 //@   let wd0 = cbwidths(cb)
 //@   ensures [shape] shapeKept(cb, old(cb.w), old(cb.h), old(cb.cells))
 //@   ensures [outside] !inRange(cb, x, y) ==> forall k int :: 0 <= k && k < len(cb.cells) ==> cb.cells[k] == old(cb.cells[k])
@@ -245,13 +266,15 @@ package tcell
 //@                 cb.cells[k].lastMain == 0 && sameButLastMain(cb.cells[k], old(cb.cells[k]))
 //@           invariant [rest] forall k int :: 0 <= k && k < len(cb.cells) && !inWide(cb, x, y, k, i) ==> cb.cells[k] == old(cb.cells[k])
 //@           decreases old(cb.cells[y*cb.w+x].width) - i
+//@   ensures [width-inv] wi0 ==> cbwidthinv(cb)
 //@   ensures [widths] wd0 ==> cbwidths(cb)
 //@   modifies cb.cells[*]
 
 //@ func (*CellBuffer).Resize
 //@   arith math
 //@   requires cbwf(cb) && w >= 0 && h >= 0
-//@   opt isolate wd widths
+//@   opt isolate wd widths width-inv
+//@   let wi0 = cbwidthinv(cb)
 //@   let wd0 = cbwidths(cb)
 //@   ensures [same] old(cb.w) == w && old(cb.h) == h ==> shapeKept(cb, old(cb.w), old(cb.h), old(cb.cells))
 //@   ensures [shape] cb.w == w && cb.h == h && len(cb.cells) == w*h
@@ -261,15 +284,16 @@ package tcell
 //@              sameCurr(cb.cells[yy*w+xx], old(cb.cells[yy*cb.w+xx]))
 //@   loop 1: invariant [y] 0 <= y && len(newc) == w*h && fresh(newc) && !isNil(newc) && shapeKept(cb, old(cb.w), old(cb.h), old(cb.cells)) && !(cb.w == w && cb.h == h)
 //@           invariant [lm] forall k int :: 0 <= k && k < len(newc) ==> newc[k].lastMain == 0 && !newc[k].lock
-//@           invariant [wd] wd0 ==> forall k int :: 0 <= k && k < len(newc) ==> newc[k].width >= 0
+//@           invariant [wd] (wd0 ==> forall k int :: 0 <= k && k < len(newc) ==> newc[k].width >= 0) && (wi0 ==> forall k int :: 0 <= k && k < len(newc) ==> cellwidthok(newc[k]))
 //@           invariant [rows] forall xx int, yy int :: 0 <= xx && xx < w && xx < cb.w && 0 <= yy && yy < y && yy < cb.h ==> sameCurr(newc[yy*w+xx], cb.cells[yy*cb.w+xx])
 //@           decreases h - y
 //@   loop 1.1: invariant [x] 0 <= x && 0 <= y && y < h && y < cb.h && len(newc) == w*h && fresh(newc) && !isNil(newc) && shapeKept(cb, old(cb.w), old(cb.h), old(cb.cells)) && !(cb.w == w && cb.h == h)
 //@           invariant [lm] forall k int :: 0 <= k && k < len(newc) ==> newc[k].lastMain == 0 && !newc[k].lock
-//@           invariant [wd] wd0 ==> forall k int :: 0 <= k && k < len(newc) ==> newc[k].width >= 0
+//@           invariant [wd] (wd0 ==> forall k int :: 0 <= k && k < len(newc) ==> newc[k].width >= 0) && (wi0 ==> forall k int :: 0 <= k && k < len(newc) ==> cellwidthok(newc[k]))
 //@           invariant [rows] forall xx int, yy int :: 0 <= xx && xx < w && xx < cb.w && 0 <= yy && yy < y && yy < cb.h ==> sameCurr(newc[yy*w+xx], cb.cells[yy*cb.w+xx])
 //@           invariant [row] forall xx int :: 0 <= xx && xx < x && xx < w && xx < cb.w ==> sameCurr(newc[y*w+xx], cb.cells[y*cb.w+xx])
 //@           decreases w - x
+//@   ensures [width-inv] wi0 ==> cbwidthinv(cb)
 //@   ensures [widths] wd0 ==> cbwidths(cb)
 //@   modifies cb.w, cb.h, cb.cells
 
